@@ -181,6 +181,9 @@ func (v *Voucher) DevicePublicKey() (crypto.PublicKey, error) {
 	if len(*v.CertChain) == 0 {
 		return nil, errors.New("empty cert chain")
 	}
+	if (*v.CertChain)[0] == nil {
+		return nil, errors.New("device cert chain starts with a null certificate")
+	}
 	return (*v.CertChain)[0].PublicKey, nil
 }
 
